@@ -37,7 +37,7 @@ const (
 	unknown             byte = iota
 	inWord                   // \S+
 	inNumber                 // [0-9a-fA-Fx.-]
-	inSpace                  // space, tab, \r, \n
+	inSpace                  // space, tab, \r, \n, \v, \f
 	inOp                     // [=<>!] (usually precedes a number)
 	opOrNumber               // + in 2 + 2 or +3e-9
 	inQuote                  // '...' or "..."
@@ -763,8 +763,10 @@ func blankComments(q string) string {
 	return string(b)
 }
 
+// isSpace: the white space of MySQL (and of strings.TrimSpace for ASCII):
+// space, \t, \n, \v, \f, \r.
 func isSpace(r rune) bool {
-	return r == 0x20 || r == 0x09 || r == 0x0D || r == 0x0A
+	return r == 0x20 || r == 0x09 || r == 0x0D || r == 0x0A || r == 0x0B || r == 0x0C
 }
 
 func wordIn(q string, words ...string) bool {
